@@ -109,6 +109,9 @@ def make_values(rng):
     vals = [bytes([rng.randrange(256)]) * rng.choice([1, 2, 7, 32, 40]) for _ in range(n)]
     if rng.random() < 0.15:
         vals[rng.randrange(n)] = rng.choice(MAGIC)
+    if rng.random() < 0.12:
+        # values are unbounded: sizes around and far beyond one length byte
+        vals.append(bytes([rng.randrange(256)]) * rng.choice([255, 256, 257, 300, 1000, 5000]))
     return vals
 
 
